@@ -35,4 +35,24 @@ CLAIMED["C06"] = {
     "note": TRUST,
 }
 
+CLAIMED["C15"] = {
+    "technique": "atomic-discipline lint over AtomicExpr (memory-order floors, single-exchange take, CAS operand roles) + CFG dominance (drain before read) + who-may-touch table for the list head",
+    "text": ("Decided on every run: the publishing CAS is >= release and the consumer's take is one atomic exchange with NULL that is >= acquire; "
+             "the CAS's expected operand is &msg->next of the pushed node, desired is the node, and msg->next is loaded from the head before the "
+             "loop and never written after; extract and peek call the drain before any use of the heap on every path; the drain loop inserts "
+             "every node once per iteration with key = that node's timestamp and reads the successor from the node; the head is touched only by "
+             "the four queue functions with their permitted access kinds; the buffer index is lid_to_rid(msg->dest). NOT decided: "
+             "linearizability / loss-freedom of the CAS retry against the swap over all interleavings."),
+    "note": TRUST + " Memory-order floors are argued from the plain data each operation publishes, not copied from today's orders.",
+}
+CLAIMED["C17"] = {
+    "technique": "finite-domain abstract evaluation of the barrier's phase automaton (all 4 phase values through the CFG) + atomic-order floors + leader/spin-loop shape recognisers",
+    "text": ("Decided on every run: the phase variable is thread-local and advanced on every path; evaluating the function for each phase value "
+             "shows consecutive uses take different counters, the two uses of a counter alternate direction and the automaton returns to phase 0 "
+             "after 4 uses; both arrival RMWs are >= acq_rel; the leader flag is an equality test of the RMW result with 0 (up) / 1 (down); each "
+             "spin loop reloads the counter atomically and exits only at the thread count (up) or 0 (down). A different barrier algorithm is "
+             "reported inconclusive, not as a violation. NOT decided: 'nobody passes early' over all interleavings."),
+    "note": TRUST,
+}
+
 NOT_APPLICABLE = {}
